@@ -5,4 +5,5 @@ CONSTANTS Inf = 7
   Handlers = {"p", "q"}
   MaxTruth = 8
   MaxDeliver = 14
+  Restarts = FALSE
 CHECK_DEADLOCK FALSE
